@@ -1,5 +1,336 @@
-import CoclsModel.Storage
-import CoclsModel.StorageMt
+import CoclsModel.StorageProofs
+import CoclsModel.StorageProofsB
+import CoclsModel.StorageMtProofs
+/-!
+# C19 — coroutine storage policies give every frame exclusive, correctly freed memory
+
+Models: `CoclsModel/Storage.lean` (one machine, the policy is a parameter: `default_storage`, `reusable_storage`,
+`reusable_storage_mtsafe`, `stack_storage`, `placement_alloc`, `reusable_buffer_storage`, each optionally wrapped in
+`promise_extra_storage<T, ·>` — `Cfg.extra = sizeof(T)`) and `CoclsModel/StorageMt.lean` (the thread-safe variant under
+every interleaving of any number of threads, one step per hooked operation).
+
+Every theorem quantifies over *all* configurations and *all* operation lists (`Reachable c s` = some list of frame
+creations / completions / policy operations leads from the freshly constructed storage to `s`) resp. *all*
+schedules.  `s.ok = true` is the explicit totalisation: the caller respected the documented contract of the
+single-block policies (they have no busy flag; see the examples at the end for what happens otherwise).
+`CfgOK` only says `sizeof(Item) ≥ 1` for `reusable_buffer_storage`.
+-/
 namespace Cocls.Storage
-theorem c19_placeholder : (init { pol := Policy.default }).ok = true := rfl
+
+/-- **Exclusive memory.** For every policy (with or without the extra-object wrapper), after every sequence of
+operations that respects the documented contract, no two live frames share a block … -/
+theorem c19_exclusive {c : Cfg} (hc : CfgOK c) {s : State} (h : Reachable c s) (hok : s.ok = true) : Exclusive s :=
+  (reachable_inv hc h hok).mem.excl
+
+/-- … and **at least as large as requested**: every live frame sits in memory that exists for its whole lifetime (a
+live heap block / the caller's buffer) and is large enough for the frame, the extra object and the policy's trailer
+(`need = sz + sizeof(T) + trailer`). -/
+theorem c19_size {c : Cfg} (hc : CfgOK c) {s : State} (h : Reachable c s) (hok : s.ok = true) :
+    ∀ f ∈ s.frames, Fits s f :=
+  (reachable_inv hc h hok).mem.fits
+
+/-- the three byte ranges inside a frame's heap block do not overlap and lie inside the block: frame `[0, sz)`,
+extra object `[sz, sz + extra)`, trailer `[sz + extra, sz + extra + trailer)` -/
+theorem c19_layout {c : Cfg} (hc : CfgOK c) {s : State} (h : Reachable c s) (hok : s.ok = true)
+    (f : Frame) (hf : f ∈ s.frames) (b : Nat) (hb : f.blk = Blk.heap b) :
+    ∃ n, (b, n) ∈ s.heap.live ∧ f.sz + c.extra + trailer c.pol ≤ n := by
+  have := c19_size hc h hok f hf
+  simp only [Fits, hb, need, reachable_cfg h] at this
+  exact this
+
+/-- **Released exactly once.** No heap block is ever deleted twice, only blocks that were obtained from
+`operator new` are deleted, and a deleted block is not live. -/
+theorem c19_released_at_most_once {c : Cfg} (hc : CfgOK c) {s : State} (h : Reachable c s) (hok : s.ok = true) (b : Nat) :
+    s.heap.dels.count b ≤ 1 ∧ (b ∈ s.heap.dels → b < s.heap.next ∧ b ∉ s.heap.ids) := by
+  have h1 := (reachable_inv hc h hok).mem.once b
+  constructor
+  · split at h1 <;> omega
+  · intro hm
+    have h2 : 0 < s.heap.dels.count b := List.count_pos_iff.mpr hm
+    constructor
+    · split at h1 <;> omega
+    · intro hi
+      have h3 : 0 < s.heap.ids.count b := List.count_pos_iff.mpr hi
+      split at h1 <;> omega
+
+/-- **No leak.** Every live heap block is either the storage's own block or the private block of exactly one
+live frame (a heap fallback / a `default_storage` frame); nothing else is live. -/
+theorem c19_no_leak {c : Cfg} (hc : CfgOK c) {s : State} (h : Reachable c s) (hok : s.ok = true) (b : Nat) :
+    s.heap.ids.count b = s.ptr.toList.count b + (privBlocks s.frames).count b :=
+  (reachable_inv hc h hok).mem.noleak b
+
+/-- **Any heap fallback is released exactly once**: once all frames are gone and the storage object is destroyed,
+the heap is empty and every block that was ever allocated has been deleted exactly once. -/
+theorem c19_fallback_freed_once {c : Cfg} (hc : CfgOK c) {s : State} (h : Reachable c s) (hok : s.ok = true)
+    (hq : s.frames = []) :
+    (step s Op.destroy).1.heap.live = [] ∧
+    ∀ b, (step s Op.destroy).1.heap.dels.count b = if b < (step s Op.destroy).1.heap.next then 1 else 0 := by
+  have hr : Reachable c (step s Op.destroy).1 := by
+    obtain ⟨ops, rfl⟩ := h
+    exact ⟨ops ++ [Op.destroy], by simp [run, List.foldl_append]⟩
+  have hok' : (step s Op.destroy).1.ok = true := by
+    show (s.ok && s.frames.isEmpty) = true
+    simp [hok, hq]
+  have hi := reachable_inv hc hr hok'
+  have hids : (step s Op.destroy).1.heap.ids = [] := by
+    apply List.eq_nil_iff_forall_not_mem.mpr
+    intro b hb
+    have h1 := hi.mem.noleak b
+    have h2 : 0 < (step s Op.destroy).1.heap.ids.count b := List.count_pos_iff.mpr hb
+    have h3 : (step s Op.destroy).1.ptr = none := rfl
+    have h4 : (step s Op.destroy).1.frames = [] := hq
+    rw [h3, h4] at h1
+    simp at h1
+    omega
+  constructor
+  · simpa [Heap.ids] using hids
+  · intro b
+    have h1 := hi.mem.once b
+    rw [hids] at h1
+    simpa using h1
+
+/-- decision logic of `dealloc`: releasing a frame deletes exactly its own block iff the trailer / flag byte marks it
+private, and makes no heap call otherwise -/
+theorem c19_free_path (s : State) (f : Frame) (hfind : s.frames.find? (fun g => g.id == f.id) = some f) :
+    (f.priv = true → ∀ b, f.blk = Blk.heap b → (stepFree s f.id).1.heap = s.heap.del b) ∧
+    (f.priv = false → (stepFree s f.id).1.heap = s.heap) := by
+  unfold stepFree release
+  simp only [hfind]
+  constructor
+  · intro hp b hb; simp [hp, hb]
+  · intro hp; simp only [hp, Bool.false_eq_true, if_false]; split <;> rfl
+
+/-- **No heap memory after warm-up** (`reusable_storage`, `reusable_storage_mtsafe` with its block free,
+`reusable_buffer_storage`): once a frame of `n` bytes was served from the storage's own block, *every* later
+request of at most `n` bytes — after any further history that does not destroy the storage — is served without
+any heap call. -/
+theorem c19_warm_no_alloc {c : Cfg} (hc : CfgOK c) (hr : Reusing c.pol) (ops1 ops2 : List Op) (k k' n m : Nat)
+    (hm : m ≤ n) (hnd : Op.destroy ∉ ops2)
+    (hb1 : c.pol = Policy.mtsafe → (run (init c) ops1).busy = false)
+    (hok : (run (init c) (ops1 ++ Op.alloc k n :: ops2)).ok = true)
+    (hb2 : c.pol = Policy.mtsafe → (run (init c) (ops1 ++ Op.alloc k n :: ops2)).busy = false) :
+    (step (run (init c) (ops1 ++ Op.alloc k n :: ops2)) (Op.alloc k' m)).1.heap
+      = (run (init c) (ops1 ++ Op.alloc k n :: ops2)).heap := by
+  have e : run (init c) (ops1 ++ Op.alloc k n :: ops2) = run (step (run (init c) ops1) (Op.alloc k n)).1 ops2 := by
+    simp [run, List.foldl_append]
+  rw [e] at hok hb2 ⊢
+  have hcfg1 : (run (init c) ops1).cfg = c := run_cfg _ _
+  have hok2 : (step (run (init c) ops1) (Op.alloc k n)).1.ok = true := run_ok_mono _ ops2 hok
+  have hok1 : (run (init c) ops1).ok = true := step_ok_mono _ _ hok2
+  have hi1 : Inv (run (init c) ops1) := reachable_inv hc ⟨ops1, rfl⟩ hok1
+  have hi2 : Inv (step (run (init c) ops1) (Op.alloc k n)).1 := inv_step (by rw [hcfg1]; exact hc) hi1 _ hok2
+  have hcfg2 : (step (run (init c) ops1) (Op.alloc k n)).1.cfg = c := by rw [step_cfg, hcfg1]
+  have hcfg3 : (run (step (run (init c) ops1) (Op.alloc k n)).1 ops2).cfg = c := by rw [run_cfg, hcfg2]
+  have h1 := alloc_capBytes_ge (run (init c) ops1) (by rw [hcfg1]; exact hc) hi1.mem.vsize_le (by rw [hcfg1]; exact hr)
+    (by rw [hcfg1]; exact hb1) k n
+  have h2 := capBytes_mono_run (by rw [hcfg2]; exact hc) hi2 ops2 hnd hok
+  apply alloc_no_heap _ (by rw [hcfg3]; exact hc) (by rw [hcfg3]; exact hr) (by rw [hcfg3]; exact hb2)
+  rw [hcfg3]
+  rw [hcfg1] at h1
+  have : need c m ≤ need c n := by simp only [need]; omega
+  omega
+
+
+/-- **`stack_storage` after warm-up.** A frame of `n` bytes that did not fit went to the heap and left its size in
+the shared state; after any number of completions and further `stack_storage` objects, an object constructed from
+that state serves *every* frame of at most `n` bytes in place (in its own buffer `ext k`), without a heap call. -/
+theorem c19_warm_stack (s : State) (i : Nat) (hp : s.cfg.pol = Policy.stack i) (k n asz : Nat)
+    (hk : s.objs[k]? = some asz) (hbig : ¬ need s.cfg n ≤ asz)
+    (ops : List Op) (hq : ∀ op ∈ ops, Quiet op) (m : Nat) (hm : m ≤ n) :
+    (step (step (run (step s (Op.alloc k n)).1 ops) Op.newobj).1
+        (Op.alloc (run (step s (Op.alloc k n)).1 ops).objs.length m)).1.heap
+      = (run (step s (Op.alloc k n)).1 ops).heap ∧
+    (step (step (run (step s (Op.alloc k n)).1 ops) Op.newobj).1
+        (Op.alloc (run (step s (Op.alloc k n)).1 ops).objs.length m)).2
+      = Res.alloc (run (step s (Op.alloc k n)).1 ops).nextFrame (Blk.ext (run (step s (Op.alloc k n)).1 ops).objs.length) :=
+  warm_stack s i hp k n asz hk hbig ops hq m hm
+
+/-- **The extra object is constructed exactly once and destroyed exactly once with the frame**
+(`promise_extra_storage`; `born` / `died` log the constructor / destructor calls, which sit in `alloc` / `dealloc`):
+every frame ever created has exactly one construction; it has exactly one destruction iff it is no longer live,
+and none while it is live. -/
+theorem c19_extra_object_once {c : Cfg} (hc : CfgOK c) {s : State} (h : Reachable c s) (hok : s.ok = true) (i : Nat) :
+    s.born.count i = (if i < s.nextFrame then 1 else 0) ∧
+    (s.frames.map (·.id)).count i + s.died.count i = s.born.count i := by
+  have hb := (reachable_inv hc h hok).book
+  exact ⟨hb.born_once i, by rw [hb.born_once i]; exact hb.life i⟩
+
+/-- **… and is usable as soon as the coroutine object exists**: when `alloc` returns (i.e. before the coroutine
+function has returned its object and long before the body runs) the extra object of *this* frame has been
+constructed, has not been destroyed, and `inventory` points at it; it lies behind the frame inside the frame's
+block (`c19_layout`). -/
+theorem c19_extra_object_usable {c : Cfg} (hc : CfgOK c) {s : State} (h : Reachable c s) (k sz id : Nat) (blk : Blk)
+    (hres : (step s (Op.alloc k sz)).2 = Res.alloc id blk) (hok : (step s (Op.alloc k sz)).1.ok = true) :
+    (step s (Op.alloc k sz)).1.inventory = some id ∧ (step s (Op.alloc k sz)).1.born.count id = 1 ∧
+    (step s (Op.alloc k sz)).1.died.count id = 0 ∧
+    ∃ f ∈ (step s (Op.alloc k sz)).1.frames, f.id = id ∧ f.blk = blk ∧ f.sz = sz := by
+  obtain ⟨hid, hinv, hborn, hdied, p, hfr⟩ := alloc_result s k sz id blk hres
+  have hr : Reachable c (step s (Op.alloc k sz)).1 := by
+    obtain ⟨ops, rfl⟩ := h
+    exact ⟨ops ++ [Op.alloc k sz], by simp [run, List.foldl_append]⟩
+  have hb := (reachable_inv hc hr hok).book
+  have hmem : (⟨id, blk, sz, p⟩ : Frame) ∈ (step s (Op.alloc k sz)).1.frames := by rw [hfr]; simp
+  have hlt := hb.fid_lt _ hmem
+  have h1 := hb.born_once id
+  have h2 := hb.life id
+  have h3 : 0 < ((step s (Op.alloc k sz)).1.frames.map (·.id)).count id :=
+    List.count_pos_iff.mpr (List.mem_map.mpr ⟨_, hmem, rfl⟩)
+  simp only [] at hlt
+  rw [if_pos hlt] at h1 h2
+  exact ⟨hinv, h1, by omega, ⟨id, blk, sz, p⟩, hmem, rfl, rfl, rfl⟩
+
+/-- `reusable_storage_mtsafe`, one thread at a time: at most one live frame sits in the shared block, `_busy` is set
+exactly while it does, and every other live frame has a private heap block -/
+theorem c19_mtsafe_sequential {c : Cfg} (hc : CfgOK c) (hp : c.pol = Policy.mtsafe) {s : State} (h : Reachable c s)
+    (hok : s.ok = true) :
+    (s.busy = true ↔ ∃ f ∈ s.frames, f.priv = false) ∧
+    (∀ f ∈ s.frames, ∀ g ∈ s.frames, f.priv = false → g.priv = false → f = g) ∧
+    (∀ f ∈ s.frames, f.priv = false ↔ f.blk = s.ptrBlk) := by
+  have hi := (reachable_inv hc h hok).mem
+  have hpol : s.cfg.pol = Policy.mtsafe := by rw [reachable_cfg h]; exact hp
+  have hsb : ∀ f ∈ s.frames, f.priv = false → f.blk = s.ptrBlk := by
+    intro f hf hq; have := hi.shared_blk f hf hq; simpa [SharedAt, hpol] using this
+  refine ⟨hi.busy_iff hpol, ?_, ?_⟩
+  · intro f hf g hg hq1 hq2
+    exact nodup_map_inj hi.excl hf hg ((hsb f hf hq1).trans (hsb g hg hq2).symm)
+  · intro f hf
+    constructor
+    · exact hsb f hf
+    · intro hb
+      cases hq : f.priv with
+      | false => rfl
+      | true =>
+        exfalso
+        obtain ⟨b, hb'⟩ := hi.priv_heap f hf hq
+        cases hpt : s.ptr with
+        | none => simp [State.ptrBlk, hpt] at hb; rw [hb] at hb'; cases hb'
+        | some p =>
+          simp only [State.ptrBlk, hpt] at hb
+          exact hi.priv_ne_ptr hpt hf hq hb
+
+end Cocls.Storage
+
+/-! ## the thread-safe variant under all interleavings -/
+namespace Cocls.Storage.Mt
+open Cocls.Storage
+
+/-- every state reachable by any number of threads under any schedule (a schedule step names a thread and what it
+does next: begin an `alloc`, continue its operation by one hooked operation, or `dealloc` a live frame) -/
+def Reachable (s : State) : Prop := ∃ sched, s = run init sched
+
+theorem reachable_minv {s : State} (h : Reachable s) : MInv s := by
+  obtain ⟨sched, rfl⟩ := h
+  exact minv_run minv_init sched
+
+/-- **The thread-safe variant never hands its block to two simultaneously live frames** — for every interleaving of
+any number of threads: at most one live frame is marked as living in the shared block; no two live frames (shared or
+private) share a block; every live frame's block is live — in particular the shared block is never deleted or
+replaced under its frame — and holds frame + trailer. -/
+theorem c19_mtsafe_exclusive {s : State} (h : Reachable s) :
+    (∀ f ∈ s.frames, ∀ g ∈ s.frames, f.priv = false → g.priv = false → f = g) ∧
+    (s.frames.map (·.blk)).Nodup ∧
+    (∀ f ∈ s.frames, ∃ b n, f.blk = Blk.heap b ∧ (b, n) ∈ s.heap.live ∧ f.sz + 8 ≤ n) := by
+  have hi := reachable_minv h
+  refine ⟨?_, hi.excl, hi.fits⟩
+  intro f hf g hg hq1 hq2
+  obtain ⟨_, p, hp1, hb1⟩ := hi.shared_blk f hf hq1
+  obtain ⟨_, q, hp2, hb2⟩ := hi.shared_blk g hg hq2
+  rw [hp1] at hp2; injection hp2 with hp2; subst hp2
+  exact nodup_map_inj hi.excl hf hg (hb1.trans hb2.symm)
+
+/-- `_busy` is set exactly while a thread is growing the block or a frame lives in it; these exclude each other and
+there is at most one growing thread (mutual exclusion on the shared block) -/
+theorem c19_mtsafe_busy {s : State} (h : Reachable s) :
+    (s.busy = true ↔ (∃ t, (s.pc t).holder = true) ∨ (∃ f ∈ s.frames, f.priv = false)) ∧
+    (∀ t u, (s.pc t).holder = true → (s.pc u).holder = true → t = u) ∧
+    (∀ t, (s.pc t).holder = true → ∀ f ∈ s.frames, f.priv = true) :=
+  ⟨(reachable_minv h).busy_iff, (reachable_minv h).holder_unique, (reachable_minv h).holder_noshared⟩
+
+/-- heap accounting under all interleavings: no block is deleted twice; the live blocks are exactly the storage's
+current block (none between the two halves of a growth) and one private block per live fallback frame -/
+theorem c19_mtsafe_heap_once {s : State} (h : Reachable s) (b : Nat) :
+    s.heap.dels.count b ≤ 1 ∧ s.heap.ids.count b = (owned s).count b + (privBlocks s.frames).count b := by
+  have h1 := (reachable_minv h).once b
+  refine ⟨?_, (reachable_minv h).noleak b⟩
+  split at h1 <;> omega
+
+/-- the right free path: releasing a live frame deletes exactly its own block iff its trailer is null (private
+block), and otherwise only clears `_busy` without touching the heap — decided without reading `_ptr` -/
+theorem c19_mtsafe_free_path (s : State) (f : Frame) (hfind : s.frames.find? (fun g => g.id == f.id) = some f) :
+    (f.priv = true → ∀ b, f.blk = Blk.heap b →
+        (stepFree s f.id).1.heap = s.heap.del b ∧ (stepFree s f.id).1.busy = s.busy) ∧
+    (f.priv = false → (stepFree s f.id).1.heap = s.heap ∧ (stepFree s f.id).1.busy = false) := by
+  unfold stepFree
+  simp only [hfind]
+  constructor
+  · intro hp b hb; simp [hp, hb]
+  · intro hp; simp [hp]
+
+/-- at quiescence (no thread inside an operation, no live frame) the heap holds exactly the storage's own block:
+every fallback block was released, exactly once (`c19_mtsafe_heap_once`) -/
+theorem c19_mtsafe_quiescent {s : State} (h : Reachable s) (hidle : ∀ t, s.pc t = Pc.idle) (hq : s.frames = []) (b : Nat) :
+    s.heap.ids.count b = s.ptr.toList.count b ∧ s.busy = false := by
+  have hi := reachable_minv h
+  have hd : s.dangling = false := by
+    cases hd : s.dangling with
+    | false => rfl
+    | true => obtain ⟨t, fid, sz, ht⟩ := hi.dangling_new hd; rw [hidle t] at ht; cases ht
+  have h1 := hi.noleak b
+  simp only [owned, hd, hq, privBlocks_nil, List.count_nil, Nat.add_zero, Bool.false_eq_true, if_false] at h1
+  refine ⟨h1, ?_⟩
+  cases hb : s.busy with
+  | false => rfl
+  | true =>
+    rcases hi.busy_iff.mp hb with ⟨t, ht⟩ | ⟨f, hf, _⟩
+    · rw [hidle t] at ht; cases ht
+    · rw [hq] at hf; cases hf
+
+/-- The pinned code violated the property: `dealloc` compared the frame's address with `me->_ptr`.  Thread 0 grows the
+block (`delete` … `new`); in between thread 1 obtains a private block at the just-freed address and releases it: it is
+taken for the shared block (never deleted: leaked; `_busy` cleared), and thread 1's next frame is placed in thread 0's
+block — two live frames at one address.  Replayed on the headers by corpus/c19_mtsafe_stale_ptr.txt; repaired by the
+`fix:` commit (the trailer decides). -/
+theorem c19_mtsafe_asis_violation :
+    ((AsIs.run {} [(0, Act.alloc 64), (0, Act.go), (0, Act.free 0), (0, Act.alloc 128), (0, Act.go), (1, Act.alloc 64),
+        (1, Act.go), (1, Act.free 2), (0, Act.go), (1, Act.alloc 100)]).frames.map (·.addr)) = [2, 2] ∧
+    (AsIs.run {} [(0, Act.alloc 64), (0, Act.go), (0, Act.free 0), (0, Act.alloc 128), (0, Act.go), (1, Act.alloc 64),
+        (1, Act.go), (1, Act.free 2), (0, Act.go), (1, Act.alloc 100)]).live = [(1, 72), (2, 136)] := by decide
+
+/-- the same schedule on the repaired model: thread 1's second frame does not get the shared block -/
+example : ((run init [(0, Act.alloc 64), (0, Act.go), (0, Act.free 0), (0, Act.alloc 128), (0, Act.go), (1, Act.alloc 64),
+        (1, Act.go), (1, Act.free 2), (0, Act.go), (1, Act.alloc 100), (1, Act.go)]).frames.map (·.blk))
+      = [Blk.heap 2, Blk.heap 3] := by decide
+
+/-- non-vacuity: a reachable state with a frame in the shared block, a private fallback frame, and a third thread
+in the middle of a growth is impossible (`c19_mtsafe_busy`); this one has shared + private frame + a paused thread -/
+example : Reachable (run init [(0, Act.alloc 64), (0, Act.go), (1, Act.alloc 8), (1, Act.go), (2, Act.alloc 8)]) := ⟨_, rfl⟩
+example : ((run init [(0, Act.alloc 64), (0, Act.go), (1, Act.alloc 8), (1, Act.go), (2, Act.alloc 8)]).frames.map (·.priv))
+      = [false, true] := by decide
+
+end Cocls.Storage.Mt
+
+namespace Cocls.Storage
+
+/-! ### non-vacuity, and why the contract (`ok`) is needed -/
+
+/-- reachable, contract respected, with a reused block and a live frame -/
+example : (run (init { pol := Policy.reusable }) [Op.alloc 0 40, Op.free 0, Op.alloc 0 24]).ok = true
+    ∧ (run (init { pol := Policy.reusable }) [Op.alloc 0 40, Op.free 0, Op.alloc 0 24]).heap.live = [(0, 40)]
+    ∧ (run (init { pol := Policy.reusable }) [Op.alloc 0 40, Op.free 0, Op.alloc 0 24]).frames.length = 1 := by decide
+
+/-- mtsafe with extra object: a shared frame and a fallback frame live at once, contract respected -/
+example : (run (init { pol := Policy.mtsafe, extra := 16 }) [Op.alloc 0 40, Op.alloc 0 24]).ok = true
+    ∧ ((run (init { pol := Policy.mtsafe, extra := 16 }) [Op.alloc 0 40, Op.alloc 0 24]).frames.map (·.blk))
+        = [Blk.heap 0, Blk.heap 1]
+    ∧ (run (init { pol := Policy.mtsafe, extra := 16 }) [Op.alloc 0 40, Op.alloc 0 24]).heap.live = [(0, 64), (1, 48)] := by
+  decide
+
+/-- `reusable_storage` has no busy flag: a second frame while the first is live gets the *same* block (and a larger
+one would even delete the block under the first frame).  This is the documented contract, recorded by `ok`. -/
+example : ((run (init { pol := Policy.reusable }) [Op.alloc 0 40, Op.alloc 0 24]).frames.map (·.blk)) = [Blk.heap 0, Blk.heap 0]
+    ∧ (run (init { pol := Policy.reusable }) [Op.alloc 0 40, Op.alloc 0 24]).ok = false := by decide
+
+example : ((run (init { pol := Policy.reusable }) [Op.alloc 0 40, Op.alloc 0 48]).frames.map (·.blk)) = [Blk.heap 0, Blk.heap 1]
+    ∧ (run (init { pol := Policy.reusable }) [Op.alloc 0 40, Op.alloc 0 48]).heap.live = [(1, 48)] := by decide
+
 end Cocls.Storage
